@@ -430,7 +430,25 @@ pub fn run(report: &Report, thorough: bool) -> Evidence {
             |w| scratch_xdg(&format!("c16pe-{}", w)),
             |xdg, idx| {
                 let psugg = idx % 2 == 0;
-                let mut on = mk(xdg, true, true, psugg);
+                // every second chunk: the ANSI context has a past without ANSI - it is created with ANSI off, EVERY text of the chunk
+                // is typed and ended there, and only then is it switched to ANSI by update-engine (same layout, idle): whatever it
+                // remembers per word from before the switch must not bring an emoji back
+                let switched = (idx / 2) % 2 == 1;
+                let mut on = if switched {
+                    let mut c = mk(xdg, false, true, psugg);
+                    for text in chunks[idx / 2] {
+                        for ch in text.chars() {
+                            let _ = c.apply(&Ev::ch(ch));
+                        }
+                        let _ = c.apply(&Ev::Finish);
+                    }
+                    let mut o2 = c.opts.clone();
+                    o2.ansi = true;
+                    let _ = c.apply(&Ev::Update(Box::new(o2)));
+                    c
+                } else {
+                    mk(xdg, true, true, psugg)
+                };
                 std::fs::create_dir_all(format!("{}-twin/openbangla-keyboard", xdg)).ok();
                 let mut twin = mk(&format!("{}-twin", xdg), false, false, psugg);
                 for text in chunks[idx / 2] {
